@@ -152,6 +152,23 @@ def main(argv=None):
                             nxt.append((sub["unit"], optsof[sub["unit"]], [script],
                                         6 if rounds < 6 else None))
                     tasks = nxt
+    # A unit whose code no longer fits the shape its contract was written for (a
+    # new loop without an invariant) is NOT a violation: degrade that unit to the
+    # bounded stand-in (loops unrolled, everything else symbolic).  Only a
+    # counterexample found there AND replayed natively is reported; otherwise
+    # the check is undecided (exit 2).
+    degraded = []
+    for i, r in enumerate(results):
+        errs = r["errors"]
+        if errs and all(e[0] == "unsupported" and "loop without invariant" in str(e[1]) for e in errs):
+            o = dict(opts)
+            o["unroll"] = 3 if tier == "quick" else 4
+            o["keep_going"] = True
+            r2 = _run_unit((r["unit"], o, None, None))
+            r2["degraded"] = [str(e[1]) for e in errs]
+            r2["bounded"] = True
+            results[i] = r2
+            degraded.append(r["unit"])
     extras = propmod.run_extras(pid, tier, seed)
 
     kf = known_findings()
@@ -186,6 +203,8 @@ def main(argv=None):
             if r["bounded"]:
                 # bounded exploration is a stand-in: never counted as discharged
                 if ob["result"] == "refuted":
+                    if r.get("degraded"):
+                        ob["model"] = dict(ob.get("model") or {}, __weak__=True)
                     k = match_known(kf, pid, ob)
                     (known if k else violations).append((ob, k))
                 continue
@@ -273,6 +292,11 @@ def main(argv=None):
     if canary_missing:
         print(f"CHECKER-ERROR canary not refuted in units {canary_missing} (engine proves falsehoods?)")
         rc = 3 if rc != 1 else 1
+    if degraded and rc == 0:
+        for u in degraded:
+            print(f"UNDECIDED unit {u} no longer fits its contract (new loop without invariant); "
+                  f"bounded stand-in found no replayable counterexample")
+        rc = 2
     if unknown and rc == 0:
         for ob in unknown[:10]:
             print(f"UNDECIDED {ob['unit']}/{ob['kind']}:{ob['label']} ({ob.get('reason','')})")
